@@ -9,6 +9,7 @@ import (
 	"errors"
 	"fmt"
 	"io"
+	"math"
 	mbits "math/bits"
 
 	"github.com/wrgl/wrgl/pkg/encoding"
@@ -176,17 +177,16 @@ func (r *PackfileReader) ReadObject() (objType int, b []byte, err error) {
 	if err != nil {
 		return
 	}
-	var read uint64 = 0
-	b = make([]byte, int(u))
-	for read < u {
-		n, err := r.r.Read(b[read:])
-		if err != nil && err != io.EOF {
-			return 0, nil, err
-		}
-		read += uint64(n)
-		if errors.Is(err, io.EOF) && read < u {
-			return 0, nil, io.ErrUnexpectedEOF
-		}
+	if u > math.MaxInt64 {
+		return 0, nil, io.ErrUnexpectedEOF
+	}
+	// the length comes from the stream: let the buffer grow with the bytes that actually arrive
+	b, err = io.ReadAll(io.LimitReader(r.r, int64(u)))
+	if err != nil {
+		return 0, nil, err
+	}
+	if uint64(len(b)) < u {
+		return 0, nil, io.ErrUnexpectedEOF
 	}
 	return
 }
